@@ -347,8 +347,20 @@ def r_parse_step(p):
 
 
 def r_parse_pre(p):
-    probs = probe(p["version"], [p["vector"]])
-    return {"violates": bool(probs), "vector": p["vector"], "problems": probs}
+    """the lemma abstracts the chunks after the head to "empty / non-empty": the counterexample
+    is replayed as given and with the body completed to an otherwise valid vector (a wrong head
+    let through to the field loop shows as an accepted vector only then)"""
+    version = p["version"]
+    cands = [p["vector"]]
+    if version != 2:
+        chunks = p["vector"].split("/")
+        head, rest = chunks[0], chunks[1:]
+        if rest and all(rest):
+            cands.append(complete(version, [], head=head))
+        elif not rest:
+            cands.append(head)
+    probs = probe(version, cands)
+    return {"violates": bool(probs), "vector": p["vector"], "tried": cands, "problems": probs}
 
 
 def r_mandatory(p):
